@@ -60,7 +60,12 @@ def run_workers(prop, specs, jobs, timeout, workdir, repo):
             idx, spec = pending.pop(0)
             out = os.path.join(workdir, "r%d.json" % idx)
             env = dict(base_env)
-            env["ANYTREE_ASSERTIONS"] = "1" if spec.get("assertions") else "0"
+            # assertion mode on: "1"; off: alternately the variable left unset (the default configuration) and an explicit "0"
+            mode = spec.get("assertions_env") or ("1" if spec.get("assertions") else "0")
+            if mode == "unset":
+                env.pop("ANYTREE_ASSERTIONS", None)
+            else:
+                env["ANYTREE_ASSERTIONS"] = mode
             for k, v in (spec.get("env") or {}).items():
                 env[k] = str(v)
             log = open(os.path.join(workdir, "w%d.log" % idx), "wb")
@@ -241,7 +246,7 @@ def check(prop, tier="quick", seed=0, jobs=None, replay=None, repo=None, quiet=F
         if replay:
             with open(replay) as fh:
                 wit = json.load(fh)
-            spec = {"tier": tier, "seed": wit.get("seed", seed), "shard": 0, "nshards": 1, "assertions": wit.get("assertions", 0),
+            spec = {"tier": tier, "seed": wit.get("seed", seed), "shard": 0, "nshards": 1, "assertions": wit.get("assertions", 0), "assertions_env": wit.get("assertions_env"),
                     "replay": wit, "known": sorted(known_active), "case_timeout": 120}
             spec.update(getattr(mod, "REPLAY_SPEC", {}))
             if wit.get("module"):
@@ -259,7 +264,13 @@ def check(prop, tier="quick", seed=0, jobs=None, replay=None, repo=None, quiet=F
             return 1 if violations else (2 if problems else 0)
 
         specs = mod.plan(tier, seed, jobs)
+        zeros = 0
         for i, s in enumerate(specs):
+            if s.get("assertions"):
+                s.setdefault("assertions_env", "1")
+            else:
+                s.setdefault("assertions_env", "unset" if zeros % 2 == 0 else "0")
+                zeros += 1
             s.setdefault("tier", tier)
             s.setdefault("seed", seed)
             s["known"] = sorted(known_active)
